@@ -1247,6 +1247,8 @@ class Interp:
     if isinstance(a, SAny) or isinstance(b, SAny):
       self.path.event('opaque-op', op.__name__)
       return SAny('binop', label=_join_label(a, b))
+    if op is ast.Mult and isinstance(a, (list, tuple)) and isinstance(b, SInt):
+      return SAny('seq*n')
     if isinstance(a, SBits) or isinstance(b, SBits):
       return self._bits_op(op, a, b)
     num = (SInt, SReal, int, float)
@@ -1901,14 +1903,14 @@ class Interp:
           return CMInstance(self, ufn, args, kwargs)
         self.path.event('inline', key)
         return self.call_function(ufn, args, kwargs)
-      if key in self.policy.pure:
-        return SAny(key.split(':')[-1] + '()')
       if all(_deep_concrete(a) for a in args) and all(_deep_concrete(v) for v in kwargs.values()) \
           and key in self.policy.handlers.get('native_ok', ()):
         try:
           return fn(*args, **kwargs)
         except Exception as ex:  # pylint: disable=broad-except
           raise PyRaise(ExcVal(type(ex), ex.args))
+      if key in self.policy.pure:
+        return SAny(key.split(':')[-1] + '()')
       self.path.event('call', 'unknown:' + key, (args, kwargs))
       if self.policy.unknown_call_is_error:
         raise Unsupported(f'call of uncontracted function {key}')
